@@ -290,3 +290,22 @@ Theorem unlambda_unstable_forms_not_flagged c :
 Proof.
   intros F S. destruct (unlambda_stable_only_pkg_func c S) as [n ->]. discriminate.
 Qed.
+
+(* redundantSprint's Stringer rule *)
+Theorem redundant_sprint_preserves_partial o s :
+  fo_format o = None -> fo_error o = None -> fo_string o = Some s -> fmt_sprint o = s.
+Proof. unfold fmt_sprint. intros -> -> ->. reflexivity. Qed.
+
+Theorem redundant_sprint_error_refuted :
+  exists o s, fo_format o = None /\ fo_string o = Some s /\ fmt_sprint o <> s.
+Proof.
+  exists {| fo_raw := "b"; fo_format := None; fo_error := Some "E:b"; fo_string := Some "S:b" |}, "S:b".
+  repeat split. vm_compute. discriminate.
+Qed.
+
+Theorem redundant_sprint_formatter_refuted :
+  exists o s, fo_error o = None /\ fo_string o = Some s /\ fmt_sprint o <> s.
+Proof.
+  exists {| fo_raw := "b"; fo_format := Some "F:b"; fo_error := None; fo_string := Some "S:b" |}, "S:b".
+  repeat split. vm_compute. discriminate.
+Qed.
